@@ -190,6 +190,91 @@ func refSegment(compressed bool, sc bool, ulenField, clenField uint64, transmitt
 	return out
 }
 
+// refLz4Decode is an independent decoder of the LZ4 block format (written from the format description).
+// It returns the decoded bytes and a reason when the block is malformed.
+func refLz4Decode(src []byte) (out []byte, bad string) {
+	defer func() {
+		if e := recover(); e != nil {
+			bad = "truncated block"
+		}
+	}()
+	i := 0
+	for i < len(src) {
+		tok := src[i]
+		i++
+		ll := int(tok >> 4)
+		if ll == 15 {
+			for {
+				b := src[i]
+				i++
+				ll += int(b)
+				if b != 255 {
+					break
+				}
+			}
+		}
+		out = append(out, src[i:i+ll]...)
+		i += ll
+		if i >= len(src) {
+			break
+		}
+		off := int(src[i]) | int(src[i+1])<<8
+		i += 2
+		ml := int(tok & 15)
+		if ml == 15 {
+			for {
+				b := src[i]
+				i++
+				ml += int(b)
+				if b != 255 {
+					break
+				}
+			}
+		}
+		ml += 4
+		if off == 0 || off > len(out) {
+			return out, fmt.Sprintf("match offset %d at output position %d", off, len(out))
+		}
+		for k := 0; k < ml; k++ {
+			out = append(out, out[len(out)-off])
+		}
+	}
+	return out, ""
+}
+
+// diagnoseLz4 classifies a failed LZ4 round trip of x: the third-party block compressor of the pinned
+// pierrec/lz4 emits blocks that are not an encoding of x for some inputs longer than 64 KiB (match distance
+// 65536 and above stored in the 16-bit offset field).  Everything else keeps the generic kind.
+func diagnoseLz4(x []byte, got []byte) J {
+	first := -1
+	for i := 0; i < len(x) && i < len(got); i++ {
+		if x[i] != got[i] {
+			first = i
+			break
+		}
+	}
+	if first < 0 && len(x) != len(got) {
+		first = min(len(x), len(got))
+	}
+	dst := make([]byte, golz4.CompressBlockBound(len(x)))
+	w, err := golz4.CompressBlock(x, dst, nil)
+	j := J{"first_diff": first, "input_len": len(x)}
+	if err != nil {
+		j["kind"] = "lz4-roundtrip-differs"
+		return j
+	}
+	ref, bad := refLz4Decode(dst[:w])
+	blockWrong := bad != "" || !bytes.Equal(ref, x)
+	j["block_is_not_an_encoding_of_input"] = blockWrong
+	j["independent_decoder"] = bad
+	if blockWrong && len(x) > 65536 && first >= 65536 {
+		j["kind"] = "lz4-block-corrupt-above-64KiB"
+	} else {
+		j["kind"] = "lz4-roundtrip-differs"
+	}
+	return j
+}
+
 // ---------------------------------------------------------------- running the real code
 
 type encRes struct {
@@ -411,6 +496,46 @@ func c06(tier string, seed int64) {
 	}
 	for _, c := range long {
 		emitSeg(c.d, c.sc, c.comp)
+	}
+
+	// harness-only content classes through the LZ4 codec (round trip predicate only; not expanded on the Coq side).
+	// The first one is the fixed witness of the known third-party defect (see diagnoseLz4).
+	type xc struct {
+		class string
+		n     int
+		seed  int64
+	}
+	xcs := []xc{{"text", 70000, 33}, {"text", 131071, 33}, {"text", 131071, 1}, {"mixed", 131071, 2}, {"rows", 131071, 3}, {"text", 65536, 33}, {"rows", 70000, 4}}
+	nx := 40
+	if thorough {
+		nx = 3000
+	}
+	for i := 0; i < nx; i++ {
+		cl := []string{"text", "mixed", "rows"}[i%3]
+		sz := 1 + rnd.Intn(131071)
+		if i%2 == 0 {
+			sz = 65537 + rnd.Intn(131071-65537+1)
+		}
+		xcs = append(xcs, xc{cl, sz, int64(rnd.Intn(1 << 30))})
+	}
+	for i, c := range xcs {
+		p := expandClass(c.class, c.n, c.seed)
+		for _, comp := range []string{"lz4", "none"} {
+			if comp == "none" && i%8 != 0 {
+				continue
+			}
+			e := encodeSeg(comp, i%2 == 0, p)
+			rec := J{"kind": "segx", "class": c.class, "len": c.n, "seed": c.seed, "comp": comp, "sc": i%2 == 0, "enc_ok": e.ok}
+			if e.ok {
+				d := decodeSeg(comp, e.out)
+				rec["dec"] = decJ(d, p)
+				rec["total"] = len(e.out)
+				if d.class == "ok" && !bytes.Equal(d.seg.Payload.UncompressedData, p) && comp == "lz4" {
+					rec["diag"] = diagnoseLz4(p, d.seg.Payload.UncompressedData)
+				}
+			}
+			hlib.Emit(rec)
+		}
 	}
 
 	// refusal above MaxPayloadLength (and acceptance at it), on the implementation only
@@ -712,6 +837,7 @@ type rtRes struct {
 	ok     bool
 	clen   int
 	detail string
+	diag   J
 }
 
 func roundTrip(algo, format string, x []byte) (r rtRes) {
@@ -746,7 +872,11 @@ func roundTrip(algo, format string, x []byte) (r rtRes) {
 		return rtRes{clen: len(c), detail: "decompress error"}
 	}
 	if !bytes.Equal(dbuf.Bytes(), x) {
-		return rtRes{clen: len(c), detail: fmt.Sprintf("decompressed to %d bytes, different from the %d-byte input", dbuf.Len(), len(x))}
+		r := rtRes{clen: len(c), detail: fmt.Sprintf("decompressed to %d bytes, different from the %d-byte input", dbuf.Len(), len(x))}
+		if algo == "lz4" {
+			r.diag = diagnoseLz4(x, dbuf.Bytes())
+		}
+		return r
 	}
 	return rtRes{ok: true, clen: len(c)}
 }
@@ -770,7 +900,8 @@ func c08(tier string, seed int64) {
 	fails := 0
 	for _, class := range classes {
 		for _, sz := range sizes {
-			x := expandClass(class, sz, int64(rnd.Intn(1<<30)))
+			csd := int64(rnd.Intn(1 << 30))
+			x := expandClass(class, sz, csd)
 			for _, af := range [][2]string{{"lz4", "raw"}, {"lz4", "withlen"}, {"snappy", "withlen"}} {
 				r := roundTrip(af[0], af[1], x)
 				n++
@@ -778,6 +909,10 @@ func c08(tier string, seed int64) {
 				if !r.ok {
 					fails++
 					rec["detail"] = r.detail
+					rec["seed"] = csd
+					if r.diag != nil {
+						rec["diag"] = r.diag
+					}
 					if sz <= 2048 {
 						rec["input_hex"] = hex.EncodeToString(x)
 					}
@@ -789,7 +924,10 @@ func c08(tier string, seed int64) {
 			dst := make([]byte, bound)
 			w, err := golz4.CompressBlock(x, dst, nil)
 			rec := J{"kind": "contract", "class": class, "len": sz, "bound": bound, "written": w, "compress_err": err != nil}
-			if err == nil {
+			if err == nil && len(x) == 0 {
+				// the empty message: one zero token (the wrapper special-cases exactly this block)
+				rec["empty_is_zero_token"] = w == 1 && dst[0] == 0
+			} else if err == nil {
 				c := dst[:w]
 				rec["nonempty"] = w >= 1
 				rec["bound_ok"] = w <= bound
